@@ -89,6 +89,9 @@ class Imputer(_SeriesToSeriesTransformer):
         self.check_is_fitted()
         self._check_method()
         Z = check_series(Z)
+        # work on a copy: the multivariate branches assign column-wise (Z[col] = ...)
+        # and must not modify the caller's data
+        Z = Z.copy()
 
         # replace missing_values with np.nan
         if self.missing_values is not None:
